@@ -132,6 +132,27 @@ def _flag_mask(e):
     return None
 
 
+def final_array_state(stores, base, size):
+    """{index: value} of array place `base` after the (normalised) stores of a path: element stores `base[i] = v` and whole-array
+    stores `base = [v0, ..]` in order, the last write of each element winning; None if some store into `base` is not understood."""
+    state = {}
+    for pl, v in stores:
+        if pl == base:
+            if v[0] == "agg" and v[1] in ("array", "adt:array") and len(v[2]) == size:
+                for i, x in enumerate(v[2]):
+                    state[i] = x
+            elif v[0] == "repeat" and v[2] == C(size):
+                for i in range(size):
+                    state[i] = v[1]
+            else:
+                return None
+        elif pl[0] == "index" and pl[1] == base and pl[2][0] == "const" and 0 <= pl[2][1] < size:
+            state[pl[2][1]] = v
+        elif find_all(pl, lambda y: y == base):
+            return None
+    return state
+
+
 def _validity_eq(e):
     """(variant name, the DataLengthValidity::new call, is `!=`) for `new(..) == DataLengthValidity::X` conditions, else None"""
     if e[0] != "call" or not e[1].endswith(("PartialEq>::eq", "PartialEq>::ne")) or len(e[2]) != 2:
